@@ -76,10 +76,44 @@ let run_e steps =
   Printf.printf "log=%s tab=%s size=%s kern=%s batch=%s blocked=%s now=%s\n"
     (String.concat ";" log) (String.concat "," tabs) (zs s.s_size) (String.concat "," kern)
     (String.concat "," batch) (String.concat "," blocked) (zs s.s_now)
+(* ---- part 2b: epoll-ng scripts ---- *)
+let pidx = function PEng -> 0 | PRd -> 1 | PWr -> 2 | PEr -> 3
+let parse_nstep tok =
+  let a = split_on ':' (tail tok) in
+  let g i = zi (List.nth a i) in
+  match tok.[0] with
+  | 'w' -> NSWait (g 0, g 1, g 2, g 3)
+  | 'r' -> NSReady (g 0, g 1)
+  | 'p' -> NSPoll
+  | 'i' -> NSIntr (g 0, g 1)
+  | 't' -> NSSleep (g 0)
+  | 'k' -> NSKick
+  | 'x' -> NSClose (g 0)
+  | _ -> failwith "nstep"
+let show_nev = function
+  | NCtl (p, op, fd, evs, d, res) -> Printf.sprintf "K%d,%s,%s,%s,%s=%s" (pidx p) (zs op) (zs fd) (zs evs) (zs d) (zs res)
+  | NWaitL (p, evs) ->
+    Printf.sprintf "Q%d[%s]" (pidx p) (String.concat "," (List.map (fun ((f, e), d) -> zs f ^ ":" ^ zs e ^ ":" ^ zs d) evs))
+  | NRes (t, r, e) -> Printf.sprintf "T%s=%s/%s" (zs t) (zs r) (zs e)
+  | NPollRet n -> "N=" ^ zs n
+  | NUnknown d -> "U" ^ zs d
+  | NMark -> "|"
+let rec take n l = if n <= 0 then [] else match l with [] -> [] | x :: r -> x :: take (n - 1) r
+let run_n steps =
+  let s = run_ng (List.map parse_nstep (split_on ',' steps)) in
+  let log = List.map show_nev (List.rev s.n_log) in
+  let kl l = String.concat "," (List.map (fun e -> Printf.sprintf "%s:%s:%d:%s" (zs e.nk_fd) (zs e.nk_events) (if e.nk_armed then 1 else 0) (zs e.nk_data)) l) in
+  let rem p = String.concat "," (List.map zs (take (int_of_z p.pl_rem) p.pl_ev)) in
+  let blocked = List.filter_map (fun (t, w) -> match w with NWaiting _ -> Some (zs t) | _ -> None) s.n_thr in
+  Printf.printf "log=%s k0=%s k1=%s k2=%s k3=%s rem=%s/%s/%s/%s blocked=%s now=%s stale=%d\n"
+    (String.concat ";" log) (kl s.n_k.nk_e) (kl s.n_k.nk_r) (kl s.n_k.nk_w) (kl s.n_k.nk_x)
+    (rem s.n_pe) (rem s.n_pr) (rem s.n_pw) (rem s.n_px)
+    (String.concat "," blocked) (zs s.n_now) (if s.n_stale || s.n_misfire then 1 else 0)
 let () =
   iter_lines Sys.argv.(1) (fun l ->
     match split_on ' ' l with
     | ["D"; opn; tmo; flags; lens; sys; wt] -> run_d opn tmo flags lens sys wt
     | ["E"; steps] -> run_e steps
+    | ["N"; steps] -> run_n steps
     | "R" :: _ -> print_endline "R ok"      (* part 3 has no model: the real-kernel run feeds the property oracle only *)
     | _ -> print_endline "BADCASE")
